@@ -87,6 +87,7 @@ MODELS = {
     # name: (module, quick cfg, thorough cfg, parsers, quick vector limit)
     "framing": ("MC_Framing.tla", "MC_Framing_quick.cfg", "MC_Framing_thorough.cfg", ["A"], 9000),
     "cache": ("MC_Cache.tla", "MC_Cache_quick.cfg", "MC_Cache_thorough.cfg", ["A", "B"], 6000),
+    "liveness": ("MC_Framing.tla", "MC_Liveness.cfg", "MC_Liveness.cfg", ["A"], 0),   # Terminates under weak fairness; no vectors
     "decode": ("MC_Decode.tla", "MC_Decode_quick.cfg", "MC_Decode_thorough.cfg", ["A"], 4000),
 }
 
@@ -298,7 +299,7 @@ def emit(prop, tier, seed, t0, runs, extra_findings=(), level="model_checking", 
 
 
 PROP_MODELS = {
-    "C01": ["framing", "cache"], "C02": ["framing"], "C03": ["framing"], "C04": ["decode"], "C05": ["decode"],
+    "C01": ["framing", "cache", "liveness"], "C02": ["framing"], "C03": ["framing"], "C04": ["decode"], "C05": ["decode"],
     "C06": ["cache"], "C07": ["cache"], "C08": ["framing"], "C09": ["decode"], "C10": ["decode"],
     "C11": ["framing", "cache"], "C12": ["framing", "cache"], "C13": ["decode"], "C14": ["framing", "cache"],
 }
@@ -345,7 +346,7 @@ def check(prop, tier, seed, t0):
     if prop not in PROP_DRIVERS:
         raise vf.ToolError("no pipeline for " + prop)
     models = [model_run(m, tier, seed) for m in PROP_MODELS.get(prop, [])]
-    runs = [driver_run("vec:" + m, tier, seed) for m in PROP_MODELS.get(prop, [])]
+    runs = [driver_run("vec:" + m, tier, seed) for m in PROP_MODELS.get(prop, []) if m != "liveness"]
     runs += [driver_run(d, tier, seed) for d in PROP_DRIVERS[prop]]
     if prop == "C01" and tier == "thorough":
         # stack depth and frame sizes differ between profiles: exercise the optimised build too
